@@ -713,6 +713,13 @@ func ParseContractFile(path string, pkgPath string) (*ContractFile, error) {
 			ps, _ := splitParams(rest[i+1 : j])
 			after := strings.TrimSpace(rest[j+1:])
 			sf := &SpecFunc{Name: strings.TrimSpace(rest[:i]), Params: ps, File: path, Pkg: cf.Pkg}
+			defined := false
+			if strings.HasPrefix(sf.Name, "defined ") {
+				// 'spec defined f': an uninterpreted symbol whose defining equation is instantiated at every
+				// occurrence (as for recursive functions) -- quantified facts about f then have clean patterns
+				sf.Name = strings.TrimSpace(strings.TrimPrefix(sf.Name, "defined "))
+				defined = true
+			}
 			if strings.HasPrefix(sf.Name, "opaque ") {
 				sf.Name = strings.TrimSpace(strings.TrimPrefix(sf.Name, "opaque "))
 				sf.Opaque = true
@@ -724,7 +731,7 @@ func ParseContractFile(path string, pkgPath string) (*ContractFile, error) {
 					return nil, fail(l, err)
 				}
 				sf.Body = b
-				sf.Recursive = mentionsCall(b, sf.Name)
+				sf.Recursive = mentionsCall(b, sf.Name) || defined
 			} else {
 				sf.Ret = after
 			}
